@@ -57,6 +57,12 @@ def q_specs():
         s["crop"] = {"name": "MaizeGDD", "planting": "05/01", "harvest": "08/30", "scale": None, "gddscale": 0.15, "kw": {}}
         s["end"] = "2002/09/15"
         Q[nm] = s
+    # rare input conditions that a "report it once per process" branch would treat differently the second time: days with a reference
+    # ET below the 0.1 mm floor that prepare_weather applies to files (user-built tables may carry them), frost days
+    for nm, devs in (("low_et0_days", [[5, "Z"], [6, "Z"], [14, "Z"]]), ("low_et0_and_frost_days", [[3, "F"], [9, "Z"], [10, "L"], [15, "F"]])):
+        c = A._b(crop="maize.2", win="w1s", word="normal")
+        c["dev"] = devs
+        Q[nm] = A.to_spec(c)
     return Q
 
 
